@@ -615,40 +615,97 @@ def t3_templates():
     return out
 
 
-def make_t3_emulation(clf=None, first_cmd=None):
+def make_t3_emulation(clf=None, first_cmd=None, wlog=None):
     import nfc.clf
     import nfc.tag.tt3
     first = first_cmd if first_cmd is not None else t3_cmd(0x04)
     target = nfc.clf.LocalTarget("212F", sensf_res=bytearray(b"\x01" + T3_IDM + T3_PMM + T3_SYS),
                                  tt3_cmd=bytearray(first[1:]))
     emu = nfc.tag.tt3.Type3TagEmulation(clf, target)
-    add_t3_services(emu)
+    add_t3_services(emu, wlog)
     return emu
 
 
-def add_t3_services(emu):
+def t3_structure(cmd):
+    """structural well-formedness of a FeliCa command frame, written from the command formats in the FeliCa card
+    user's manual / NFC Forum Type 3 Tag specification (not from nfcpy):
+        LEN | code | ...                              LEN counts itself
+        00 Polling:              system code (2) request code (1) time slot (1)                       -> 6 bytes
+        04 Request Response:     IDm (8)                                                              -> 10 bytes
+        0C Request System Code:  IDm (8)                                                              -> 10 bytes
+        06 Read Without Encr.:   IDm (8) ns (1) ns x service code (2) nb (1) nb x block list element
+        08 Write Without Encr.:  the same, followed by nb x 16 bytes block data
+        block list element: 2 bytes when bit 7 of its first byte is set, 3 bytes otherwise
+    -> (verdict, reason): verdict 'ok' | 'malformed' | 'misframed' | 'other' (command codes without a fixed format here)"""
+    cmd = bytes(cmd)
+    if len(cmd) < 2 or cmd[0] != len(cmd):
+        return "misframed", "len-byte-mismatch"
+    code = cmd[1]
+    if code == 0x00:
+        return ("ok", None) if len(cmd) == 6 else ("malformed", "polling-length-not-6")
+    if code in (0x04, 0x0C):
+        if len(cmd) < 10:
+            return "malformed", "idm-incomplete"
+        return ("ok", None) if len(cmd) == 10 else ("malformed", "trailing-bytes")
+    if code not in (0x06, 0x08):
+        return "other", None
+    if len(cmd) < 10:
+        return "malformed", "idm-incomplete"
+    i = 10
+    if len(cmd) <= i:
+        return "malformed", "service-list-incomplete"
+    ns = cmd[i]
+    i += 1 + 2 * ns
+    if len(cmd) < i:
+        return "malformed", "service-list-incomplete"
+    if len(cmd) <= i:
+        return "malformed", "block-count-missing"
+    nb = cmd[i]
+    i += 1
+    for _ in range(nb):
+        if len(cmd) <= i:
+            return "malformed", "block-list-incomplete"
+        i += 2 if cmd[i] & 0x80 else 3
+        if len(cmd) < i:
+            return "malformed", "block-list-incomplete"
+    rest = len(cmd) - i
+    if code == 0x06:
+        return ("ok", None) if rest == 0 else ("malformed", "trailing-bytes")
+    if rest < 16 * nb:
+        return "malformed", "block-data-shorter-than-block-list"
+    if rest > 16 * nb:
+        return "malformed", "block-data-longer-than-block-list"
+    return "ok", None
+
+
+def add_t3_services(emu, log=None):
+    """two services as examples/tagtool.py registers them (the write callback accepts whatever it is handed, as the
+    example does); `log` records every invocation of the write callback as (block number, length of the block data)"""
     mem = bytearray(16 * 16)
     mem[0:16] = bytes.fromhex("10 04 01 00 0d 00 00 00 00 00 00 00 00 00 00 23")
+    log = log if log is not None else []
 
     def rd(block_number, rb, re):                # as examples/tagtool.py does
         if block_number < len(mem) // 16:
             return mem[block_number * 16:(block_number + 1) * 16]
 
     def wr(block_number, block_data, wb, we):
+        log.append((block_number, len(block_data)))
         if block_number < len(mem) // 16:
-            mem[block_number * 16:(block_number + 1) * 16] = block_data
-            del mem[256:]
-            mem.extend(bytes(256 - len(mem)))
+            if len(block_data) == 16:            # memory keeps its size whatever the emulation hands over
+                mem[block_number * 16:(block_number + 1) * 16] = block_data
             return True
         return False
     emu.add_service(0x0009, rd, wr)
     emu.add_service(0x000B, rd, lambda *a: False)
+    return log
 
 
 class T3Emu(object):
     def __init__(self, R):
         self.R = R
-        self.emu = make_t3_emulation()
+        self.wlog = []
+        self.emu = make_t3_emulation(wlog=self.wlog)
         self.st = Stats(R, "tt3-emulation")
         self.exhaustive = False
 
@@ -686,6 +743,48 @@ class T3Emu(object):
             st.c["other:" + type(r).__name__] += 1
             self.R.violation("badreturn/tt3-emulation/" + type(r).__name__,
                              "process_command returned %r" % (r,), {"pos": "tt3-emulation", "cmd": bytes(cmd)})
+        self.judge_structure(cmd, r)
+
+    def judge_structure(self, cmd, r):
+        """clause 'malformed input is answered with a protocol error or ignored': a Read/Write Without Encryption
+        command addressed to this tag that is structurally malformed (t3_structure, independent of nfcpy) must not be
+        answered with the success status 00 00, and no part of it may be handed to the service's write callback as a
+        block that does not have 16 bytes"""
+        st, wlog = self.st, self.wlog
+        calls = list(wlog)
+        del wlog[:]
+        st.c["write_callback_blocks"] += len(calls)
+        if len(cmd) < 10 or cmd[1] not in (0x06, 0x08) or bytes(cmd[2:10]) != T3_IDM:
+            return
+        verdict, reason = t3_structure(cmd)
+        short = [c for c in calls if c[1] != 16]
+        if verdict == "ok":
+            st.c["wellformed_rw"] += 1
+            if short:
+                st.c["wellformed_write_callback_not_16"] += 1      # not a matter of this property; reported as counter
+            return
+        if verdict != "malformed":
+            return
+        st.c["malformed_judged"] += 1
+        st.c["malformed:" + reason] += 1
+        name = "read" if cmd[1] == 0x06 else "write"
+        case = {"pos": "tt3-emulation", "cmd": bytes(cmd)}
+        if short:
+            st.c["malformed_write_callback_not_16"] += 1
+            self.R.violation("malformed-processed/tt3-emulation/write/%s/callback-block-data-not-16-bytes" % reason,
+                             "process_command(%s): Write Without Encryption, structurally malformed (%s), was executed: "
+                             "the service's write callback was called with block data of %s bytes"
+                             % (bytes(cmd)[:40].hex(), reason, sorted(set(c[1] for c in short))), case)
+        if r is None:
+            st.c["malformed_ignored"] += 1
+        elif isinstance(r, (bytes, bytearray)) and len(r) >= 12 and r[1] in (7, 9) and r[10] == 0 and r[11] == 0:
+            st.c["malformed_answered_success"] += 1
+            self.R.violation("malformed-answered/tt3-emulation/%s/%s/status-0000" % (name, reason),
+                             "process_command(%s): %s Without Encryption, structurally malformed (%s), was answered with "
+                             "the success status 00 00 (%s) instead of an error status or silence"
+                             % (bytes(cmd)[:40].hex(), name.capitalize(), reason, bytes(r)[:16].hex()), case)
+        elif isinstance(r, (bytes, bytearray)):
+            st.c["malformed_answered_error"] += 1
 
     def run(self, desc, rng):
         R, shard = self.R, desc["shard"]
@@ -758,8 +857,41 @@ class T3Emu(object):
                             R.count("tt3_refused_element_commands")
                             if bad >= 8:
                                 R.count("tt3_refused_element_at_position_8_or_later")
+        # structure class: correctly framed Read/Write commands to this tag whose service list / block list / block data
+        # is shorter or longer than the counts announce (every combination of counts, element sizes and supplied parts)
+        k = 0
+        for code in (0x06, 0x08):
+            for ns in (1, 2):
+                for nb in (0, 1, 2, 3, 8, 12):
+                    for three in (False, True):
+                        lst = b"".join(t3_blocklist([1 + (j % 12)], three=three, svc_index=j % ns) for j in range(nb))
+                        head = bytes([ns]) + (b"\x09\x00" + b"\x0b\x00")[:2 * ns]
+                        full = head + bytes([nb]) + lst
+                        bodies = []
+                        if code == 0x06:
+                            for extra in (0, 1, 2, 3, 15, 16, 32):
+                                bodies.append(full + bytes(extra))
+                        else:
+                            for have in sorted(set([0, 1, 8, 15, 16, 17, 16 * nb - 16, 16 * nb - 1, 16 * nb, 16 * nb + 1,
+                                                    16 * nb + 16, 16 * nb + 32])):
+                                if have >= 0:
+                                    bodies.append(full + bytes(have))
+                        for cut in range(1, len(full)):             # lists cut at every byte (nothing follows)
+                            bodies.append(full[:cut])
+                            if code == 0x08:
+                                bodies.append(full[:cut] + bytes(16))    # ... or block data follows the short list
+                        for body in bodies:
+                            k += 1
+                            if len(body) > 244:
+                                continue
+                            cmd = t3_cmd(code, body)
+                            if k % NSHARDS == shard % NSHARDS:
+                                self.check(cmd)
+                                R.count("tt3_structure_class")
         self.st.flush()
         R.bulk(self.st.ex, self.st.ex)
+        for key in ("malformed_judged", "write_callback_blocks"):
+            R.count("tt3_" + key, self.st.c.get(key, 0))
 
 
 # =================================================================================================
@@ -2848,7 +2980,7 @@ class Connects(object):
             return target
 
         def on_connect(tag):
-            add_t3_services(tag)
+            seen["wlog"] = add_t3_services(tag)
             seen["tag"] = tag
             return True
 
@@ -2867,6 +2999,12 @@ class Connects(object):
             escape(R, "connect-card", e, case, "ContactlessFrontend.connect(card=...) raised %s: %s (documented: returns "
                    "normally)" % (type(e).__name__, str(e)[:80]))
         R.count("connect_card_commands", dev.frames)
+        calls = seen.get("wlog") or []
+        R.count("connect_card_write_callback_blocks", len(calls))
+        if any(n != 16 for _, n in calls):
+            R.violation("malformed-processed/connect-card/write/callback-block-data-not-16-bytes",
+                        "connect(card=): a Write Without Encryption command of the reader was executed with block data of "
+                        "%s bytes handed to the service's write callback" % sorted(set(n for _, n in calls if n != 16)), case)
 
     def run(self, desc, rng):
         shard = desc["shard"]
